@@ -55,6 +55,8 @@ class IntShim(metaclass=_ShimMeta):
 
     def __new__(cls, x=0, base=None):
         if base is not None:
+            if _isinstance(x, symnp.ndarray) and x.size == 1:
+                x = x._one()                  # (a NumPy str_ scalar is a str)
             if _isinstance(x, S.SStr):
                 return S.parse_int(x, base)
             return int(x, base)
